@@ -30,6 +30,8 @@ class ComposedRequest(ComposedMessage):
 
 			if self.message.body.mimetype and 'Content-Type' not in self.message.headers:
 				self.message.headers['Content-Type'] = bytes(self.message.body.mimetype)
+		elif not self.chunked:
+			self.message.headers.pop('Content-Length', None)  # nothing is sent: a length left over by the caller would announce a body
 
 		if 'Host' not in self.message.headers and self.message.uri.host:
 			self.message.headers['Host'] = self.message.uri.host
